@@ -192,8 +192,9 @@ Definition net_deriv (net : pnet) (st : list (Qc * Qc)) : list (Qc * Qc) :=
 (* PyRates-authored helper functions emitted for vectorized / population circuits (base_funcs.py, same text in jax_funcs.py
    and torch_funcs.py):
      wsum(weight, coupling) = einsum('ij,ij->i', weight, coupling)      row i: sum_j W[i][j] * X[i][j]
-     broadcast_pre(x)  = x[None, :]   (the source vector as a row, repeated for every target unit)
-     broadcast_post(x) = x[:, None]   (the target vector as a column, repeated for every source unit)
+     broadcast_pre(x)  = x.reshape(1, -1)   (since fix_D92; before: x[None, :])   the source vector as a row, repeated for every target unit
+     broadcast_post(x) = x.reshape(-1, 1)   (since fix_D92; before: x[:, None])   the target vector as a column, repeated for every source unit
+   (reshape also accepts the 0-d value of a one-unit population; the denoted (1,m) / (n,1) operand is the same)
    A coupling edge template c(u_s, u_t) is emitted as  wsum(W, c(broadcast_pre(src), broadcast_post(tgt)))  with numpy
    broadcasting of the (1,m) and (n,1) operands to (n,m). *)
 Definition wsum (W X : list row) : row := map (fun p => dot (fst p) (snd p)) (combine W X).
